@@ -135,6 +135,116 @@ type rewriter struct {
 	needU     bool
 	ctr       int
 	funcStack []string
+	shared    map[*types.Var]bool // locals captured by a function literal that is started as a goroutine
+}
+
+// mutatedGlobals caches, per package, the package-level variables that are assigned, incremented or have
+// their address taken somewhere in a function body (the others are initialised once and read-only).
+var mutatedGlobals = map[*packages.Package]map[*types.Var]bool{}
+
+func globalsOf(pkg *packages.Package) map[*types.Var]bool {
+	if m, ok := mutatedGlobals[pkg]; ok {
+		return m
+	}
+	if pkg.TypesInfo == nil {
+		mutatedGlobals[pkg] = map[*types.Var]bool{}
+		return mutatedGlobals[pkg]
+	}
+	m := map[*types.Var]bool{}
+	mark := func(e ast.Expr) {
+		for {
+			switch x := e.(type) {
+			case *ast.ParenExpr:
+				e = x.X
+				continue
+			case *ast.IndexExpr:
+				e = x.X
+				continue
+			case *ast.SelectorExpr:
+				if _, isField := pkg.TypesInfo.Selections[x]; isField {
+					e = x.X
+					continue
+				}
+				e = x.Sel
+				continue
+			case *ast.Ident:
+				if v, ok := pkg.TypesInfo.Uses[x].(*types.Var); ok && !v.IsField() && v.Pkg() != nil && v.Parent() == v.Pkg().Scope() {
+					m[v] = true
+				}
+			}
+			return
+		}
+	}
+	for _, f := range pkg.Syntax {
+		ast.Inspect(f, func(n ast.Node) bool {
+			switch x := n.(type) {
+			case *ast.AssignStmt:
+				for _, l := range x.Lhs {
+					mark(l)
+				}
+			case *ast.IncDecStmt:
+				mark(x.X)
+			case *ast.UnaryExpr:
+				if x.Op == token.AND {
+					mark(x.X)
+				}
+			case *ast.CallExpr:
+				if id, ok := x.Fun.(*ast.Ident); ok && (id.Name == "delete" || id.Name == "clear") && len(x.Args) > 0 {
+					mark(x.Args[0])
+				}
+			}
+			return true
+		})
+	}
+	mutatedGlobals[pkg] = m
+	return m
+}
+
+// findShared records the local variables of body that a goroutine literal captures.
+func (r *rewriter) findShared(body *ast.BlockStmt) {
+	r.shared = map[*types.Var]bool{}
+	markLit := func(lit *ast.FuncLit) {
+		ast.Inspect(lit.Body, func(n ast.Node) bool {
+			id, ok := n.(*ast.Ident)
+			if !ok {
+				return true
+			}
+			v, ok := r.info.Uses[id].(*types.Var)
+			if !ok || v.IsField() || v.Pkg() == nil || v.Parent() == v.Pkg().Scope() {
+				return true
+			}
+			if v.Pos() >= lit.Pos() && v.Pos() <= lit.End() {
+				return true // declared inside the literal
+			}
+			if syncType(v.Type()) {
+				return true
+			}
+			r.shared[v] = true
+			return true
+		})
+	}
+	ast.Inspect(body, func(n ast.Node) bool {
+		switch x := n.(type) {
+		case *ast.GoStmt:
+			if lit, ok := x.Call.Fun.(*ast.FuncLit); ok {
+				markLit(lit)
+			}
+		case *ast.CallExpr:
+			if se, ok := x.Fun.(*ast.SelectorExpr); ok && se.Sel.Name == "Go" {
+				for _, a := range x.Args {
+					if lit, ok := a.(*ast.FuncLit); ok {
+						markLit(lit)
+					}
+				}
+			}
+		}
+		return true
+	})
+}
+
+func syncType(t types.Type) bool {
+	ts := t.String()
+	return strings.Contains(ts, "sync.") || strings.Contains(ts, "atomic.") || strings.HasPrefix(ts, "chan ") || strings.HasPrefix(ts, "<-chan ") || strings.HasPrefix(ts, "chan<- ")
 }
 
 func (r *rewriter) tmp(prefix string) *ast.Ident {
@@ -262,6 +372,7 @@ func (r *rewriter) run() {
 		name := fd.Name.Name
 		r.funcStack = []string{name}
 		if *access && !strings.HasPrefix(name, "Verif") {
+			r.findShared(fd.Body)
 			r.instrumentAccesses(fd.Body)
 		}
 		r.rewriteBlock(fd.Body)
@@ -751,7 +862,10 @@ func (r *rewriter) localOnly(e ast.Expr) bool {
 			if !ok {
 				return false
 			}
-			// package-level variables are shared; locals and parameters are not
+			// package-level variables are shared; locals and parameters are not, unless a goroutine literal captures them
+			if r.shared[v] {
+				return false
+			}
 			return v.Parent() != nil && v.Parent() != v.Pkg().Scope()
 		default:
 			return false
@@ -781,6 +895,28 @@ func (r *rewriter) fieldSel(e *ast.SelectorExpr) (string, bool) {
 	return strings.TrimPrefix(recv, "*") + "." + v.Name(), true
 }
 
+// varLoc names the location of a shared variable: a goroutine-captured local, or a package-level variable of an
+// instrumented package that some function mutates.
+func (r *rewriter) varLoc(id *ast.Ident) (string, bool) {
+	v, ok := r.info.Uses[id].(*types.Var)
+	if !ok || v.IsField() || v.Pkg() == nil || syncType(v.Type()) {
+		return "", false
+	}
+	if r.shared[v] {
+		return "local " + r.pkg.Name + "." + r.curFunc() + "." + v.Name(), true
+	}
+	if v.Parent() == v.Pkg().Scope() && r.ownPkg(v.Pkg()) {
+		owner := r.pkg
+		if v.Pkg() != r.pkg.Types {
+			owner = r.pkg.Imports[v.Pkg().Path()]
+		}
+		if owner != nil && globalsOf(owner)[v] {
+			return "var " + v.Pkg().Name() + "." + v.Name(), true
+		}
+	}
+	return "", false
+}
+
 func (r *rewriter) collect(n ast.Node, write bool, out *[]fieldAccess) {
 	if n == nil {
 		return
@@ -788,7 +924,19 @@ func (r *rewriter) collect(n ast.Node, write bool, out *[]fieldAccess) {
 	switch x := n.(type) {
 	case *ast.FuncLit:
 		return // its body is instrumented on its own
+	case *ast.Ident:
+		if loc, ok := r.varLoc(x); ok {
+			*out = append(*out, fieldAccess{expr: x, write: write, loc: loc})
+		}
+		return
 	case *ast.SelectorExpr:
+		if _, isSel := r.info.Selections[x]; !isSel {
+			// qualified identifier pkg.Var
+			if loc, ok := r.varLoc(x.Sel); ok {
+				*out = append(*out, fieldAccess{expr: x, write: write, loc: loc})
+			}
+			return
+		}
 		if loc, ok := r.fieldSel(x); ok && r.addressable(x) && !r.localOnly(x) {
 			*out = append(*out, fieldAccess{expr: x, write: write, loc: loc})
 		}
